@@ -51,7 +51,10 @@ def parseParam (j : Json) : Except String Param := do
   let n ← getStr j "name"
   let u ← parseDim ((j.getObjVal? "unit").toOption.getD .null)
   let k ← parseKind (← getStr j "kind")
-  return ⟨parseName n, u, k⟩
+  let named := match j.getObjVal? "named" with
+    | .ok (.bool b) => b
+    | _ => true
+  return ⟨parseName n, u, k, named⟩
 
 def parseParams (j : Json) (k : String) : Except String (List Param) := do
   let a ← getArr j k
